@@ -1085,8 +1085,24 @@ def evaluate(t, env, memo=None):
             r = b[i]
         elif op == "int" and len(t.args) == 1:
             r = int(evaluate(t.args[0], env, memo))
+        elif op == "m:join" and len(t.args) == 2:
+            sep, seq = evaluate(t.args[0], env, memo), evaluate(t.args[1], env, memo)
+            if not isinstance(sep, (str, bytes)):
+                raise CannotEval(repr(t)[:120])
+            r = sep.join(seq)
+        elif op == "json.dumps" and t.args:
+            import json as _json
+            kw = {}
+            for a in t.args[1:]:
+                if isinstance(a, Op) and a.op == "kv":
+                    kw[evaluate(a.args[0], env, memo)] = evaluate(a.args[1], env, memo)
+            r = _json.dumps(evaluate(t.args[0], env, memo), **kw)
+        elif env.get("__op__") is not None:
+            r = env["__op__"](t, env)
         else:
             raise CannotEval(repr(t)[:120])
+    elif isinstance(t, Sym) and env.get("__sym__") is not None:
+        r = env["__sym__"](t, env)
     else:
         raise CannotEval(repr(t)[:120])
     memo[k] = r
